@@ -3,6 +3,7 @@ package main
 import (
 	"fmt"
 	"go/token"
+	"strings"
 
 	"golang.org/x/tools/go/ssa"
 )
@@ -17,7 +18,7 @@ func init() {
 	register(&propSpec{ID: "C07", Level: "other", Run: runC07,
 		Explain: otherNote + "C07: decided = output layout hZoom/x/y/vZoom/f with zooms copied, x and y wrapped by isomorphic computations, the vertical index exactly f + dv (no clamp, wrap or branch), malformed input yields the empty ID. Exactness of the float Pow/Mod arithmetic is NOT decided.",
 		Canary: []CanaryExpect{{Rule: "NOWRAP-F", Bad: "canaryBadClampF", Good: "canaryGoodPlainF"},
-			{Rule: "REM-SIGN", Bad: "canaryBadRemWrap", Good: ""}}})
+			{Rule: "REM-SIGN", Bad: "canaryBadRemWrap", Good: ""}, {Rule: "FLOATGUARD", Bad: "canaryBadFloatGuard", Good: ""}}})
 	register(&propSpec{ID: "C08", Level: "other", Run: runC08,
 		Explain: otherNote + "C08: decided = the constant stencils are exactly the 6 / 8 / 26 offset sets, each offset once, all produced through GetShiftingSpatialID; the N-layer loop nest is the full box minus the origin applied to every input ID; N-layer result de-duplicated; negative layers rejected."})
 }
@@ -423,7 +424,13 @@ func ruleFloatGuard(w *World, r *Report, entry string) {
 	ke := kindsFor(w)
 	vert := ks(kF, kDF)
 	n := 0
-	for g := range closureOf(w, []*ssa.Function{f}) {
+	scope := closureOf(w, []*ssa.Function{f})
+	for _, cf := range canaryFuncs(w) {
+		if strings.Contains(cf.Name(), "FloatGuard") {
+			scope[cf] = true
+		}
+	}
+	for g := range scope {
 		if g.Blocks == nil || pkgOf(g) == nil || pkgOf(g).Path() != modPath+"/operated" {
 			continue
 		}
